@@ -1,14 +1,58 @@
 //go:build verif
 
+// Driver for C21 (the ListObjects pipeline tears down cycles without losing work).
+//
+// Four kinds of cases are written for the Coq oracle (Conc/StatusPool.v, Conc/CycleGroup.v):
+//
+//	kind 1  a random sequence of calls on a real track.StatusPool (Register / Inc / Dec / Report /
+//	        Wait), the pool's state read after every call;
+//	kind 2  a random sequence of calls on a real worker.CycleGroup (Join / SignalReady / Inc /
+//	        Dec / Wake / Sleep / WaitForAllReady / IsLeader / Next / String / Size);
+//	kind 3  the teardown protocol of Basic.Execute played at METHOD granularity on a real
+//	        CycleGroup: member goroutines, message-processing goroutines and the message queues
+//	        are simulated by this driver (one logical thread performs one method call at a time,
+//	        chosen by the PRNG among the enabled ones), every StatusPool / Membership call is made
+//	        on the real objects, and the real state is read after every call.  The oracle replays
+//	        the same schedule on the atomic-step model (each method call = the run of its atomic
+//	        steps) and compares all projections;
+//	kind 4  end to end: the real server (memory backend, experimental pipeline_list_objects) on
+//	        generated CYCLIC authorization models x pipeline tunings x concurrent requests, the
+//	        reference being the set of objects for which the real Check returns true.
+//
+// track and worker are internal to the pipeline package tree, so they are reached through
+// go:linkname and their unexported state is read through layout-mirroring structs; a start-up
+// self test aborts the run if the layouts do not match.
 package main
 
 import (
 	"context"
+	"encoding/json"
 	"fmt"
+	"os"
+	"runtime"
+	"sort"
+	"strings"
+	"sync"
+	"sync/atomic"
+	"time"
 	"unsafe"
 
+	openfgav1 "github.com/openfga/api/proto/openfga/v1"
+	parser "github.com/openfga/language/pkg/go/transformer"
+
 	_ "github.com/openfga/openfga/internal/listobjects/pipeline"
+	"github.com/openfga/openfga/internal/verifharness/lib/rec"
+	"github.com/openfga/openfga/pkg/server"
+	"github.com/openfga/openfga/pkg/storage"
+	"github.com/openfga/openfga/pkg/storage/memory"
+	"github.com/openfga/openfga/pkg/typesystem"
 )
+
+// ---------------------------------------------------------------------------------------------
+// the real objects, by linkname
+
+const trackPkg = "github.com/openfga/openfga/internal/listobjects/pipeline/internal/track"
+const workerPkg = "github.com/openfga/openfga/internal/listobjects/pipeline/internal/worker"
 
 //go:linkname newStatusPool github.com/openfga/openfga/internal/listobjects/pipeline/internal/track.NewStatusPool
 func newStatusPool() unsafe.Pointer
@@ -28,14 +72,1121 @@ func rpDec(r unsafe.Pointer)
 //go:linkname rpReport github.com/openfga/openfga/internal/listobjects/pipeline/internal/track.(*Reporter).Report
 func rpReport(r unsafe.Pointer)
 
-func main() {
+//go:linkname rpWait github.com/openfga/openfga/internal/listobjects/pipeline/internal/track.(*Reporter).Wait
+func rpWait(r unsafe.Pointer, ctx context.Context) bool
+
+//go:linkname newCycleGroup github.com/openfga/openfga/internal/listobjects/pipeline/internal/worker.NewCycleGroup
+func newCycleGroup() unsafe.Pointer
+
+//go:linkname cgJoin github.com/openfga/openfga/internal/listobjects/pipeline/internal/worker.(*CycleGroup).Join
+func cgJoin(g unsafe.Pointer, label string) unsafe.Pointer
+
+//go:linkname cgSize github.com/openfga/openfga/internal/listobjects/pipeline/internal/worker.(*CycleGroup).Size
+func cgSize(g unsafe.Pointer) int
+
+//go:linkname mSignalReady github.com/openfga/openfga/internal/listobjects/pipeline/internal/worker.(*Membership).SignalReady
+func mSignalReady(m unsafe.Pointer)
+
+//go:linkname mWaitForAllReady github.com/openfga/openfga/internal/listobjects/pipeline/internal/worker.(*Membership).WaitForAllReady
+func mWaitForAllReady(m unsafe.Pointer, ctx context.Context) bool
+
+//go:linkname mSleep github.com/openfga/openfga/internal/listobjects/pipeline/internal/worker.(*Membership).Sleep
+func mSleep(m unsafe.Pointer, ctx context.Context)
+
+//go:linkname mWake github.com/openfga/openfga/internal/listobjects/pipeline/internal/worker.(*Membership).Wake
+func mWake(m unsafe.Pointer)
+
+//go:linkname mInc github.com/openfga/openfga/internal/listobjects/pipeline/internal/worker.(*Membership).Inc
+func mInc(m unsafe.Pointer)
+
+//go:linkname mDec github.com/openfga/openfga/internal/listobjects/pipeline/internal/worker.(*Membership).Dec
+func mDec(m unsafe.Pointer)
+
+//go:linkname mIsLeader github.com/openfga/openfga/internal/listobjects/pipeline/internal/worker.(*Membership).IsLeader
+func mIsLeader(m unsafe.Pointer) bool
+
+//go:linkname mNext github.com/openfga/openfga/internal/listobjects/pipeline/internal/worker.(*Membership).Next
+func mNext(m unsafe.Pointer) unsafe.Pointer
+
+//go:linkname mString github.com/openfga/openfga/internal/listobjects/pipeline/internal/worker.(*Membership).String
+func mString(m unsafe.Pointer) string
+
+// layout mirrors (reporting.go / cycle.go)
+type spMirror struct {
+	mu         sync.Mutex
+	pool       []bool
+	inflight   atomic.Int64
+	total      atomic.Int64
+	zero       atomic.Bool
+	ready      chan struct{}
+	quiescence chan struct{}
+}
+
+type reporterMirror struct {
+	index  int
+	parent *spMirror
+}
+
+type memMirror struct {
+	reporter *reporterMirror
+	next     *memMirror
+	prev     *memMirror
+	label    string
+	leader   bool
+	wake     chan struct{}
+	awake    atomic.Bool
+}
+
+type groupMirror struct {
+	statusPool *spMirror
+	size       int
+	head       *memMirror
+	tail       *memMirror
+}
+
+func closed(ch chan struct{}) bool {
+	select {
+	case <-ch:
+		return true
+	default:
+		return false
+	}
+}
+
+type poolObs struct {
+	inflight, total    int64
+	zero, ready, quiet bool
+	bits               []bool
+}
+
+func readPool(p unsafe.Pointer) poolObs {
+	sp := (*spMirror)(p)
+	return poolObs{
+		inflight: sp.inflight.Load(), total: sp.total.Load(), zero: sp.zero.Load(),
+		ready: closed(sp.ready), quiet: closed(sp.quiescence),
+		bits: append([]bool(nil), sp.pool...),
+	}
+}
+
+func lb(bs []bool) rec.V {
+	vs := make([]rec.V, len(bs))
+	for i, b := range bs {
+		vs[i] = rec.Bool(b)
+	}
+	return rec.L(vs...)
+}
+
+func (o poolObs) rec() rec.V {
+	return rec.L(rec.I64(o.inflight), rec.I64(o.total), rec.Bool(o.zero), rec.Bool(o.ready), rec.Bool(o.quiet), lb(o.bits))
+}
+
+// selfTest checks that the mirrors describe the real layouts.
+func selfTest() error {
 	sp := newStatusPool()
-	r := spRegister(sp)
-	rpInc(r)
-	rpReport(r)
+	r0 := spRegister(sp)
+	r1 := spRegister(sp)
+	o := readPool(sp)
+	if len(o.bits) != 2 || !o.bits[0] || !o.bits[1] || o.inflight != 0 || o.total != 0 || o.zero || o.ready || o.quiet {
+		return fmt.Errorf("StatusPool mirror: unexpected fresh state %+v", o)
+	}
+	if (*reporterMirror)(r1).index != 1 || (*reporterMirror)(r0).parent != (*spMirror)(sp) {
+		return fmt.Errorf("Reporter mirror mismatch")
+	}
+	rpInc(r0)
+	rpInc(r1)
+	rpReport(r0)
+	o = readPool(sp)
+	if o.inflight != 2 || o.total != 2 || o.bits[0] || !o.bits[1] || o.ready {
+		return fmt.Errorf("StatusPool mirror: after inc/report %+v", o)
+	}
+	rpReport(r1)
+	rpDec(r0)
+	rpDec(r1)
+	o = readPool(sp)
+	if o.inflight != 0 || !o.zero || !o.ready || !o.quiet {
+		return fmt.Errorf("StatusPool mirror: after quiescence %+v", o)
+	}
+	g := newCycleGroup()
+	a := cgJoin(g, "A")
+	b := cgJoin(g, "B")
+	gm := (*groupMirror)(g)
+	if gm.size != 2 || cgSize(g) != 2 || gm.head != (*memMirror)(b) || gm.tail != (*memMirror)(a) {
+		return fmt.Errorf("CycleGroup mirror mismatch")
+	}
+	bm := (*memMirror)(b)
+	if bm.label != "B" || !bm.leader || bm.prev != (*memMirror)(a) || bm.reporter.index != 1 || closed(bm.wake) || bm.awake.Load() {
+		return fmt.Errorf("Membership mirror mismatch")
+	}
+	mWake(b)
+	if !closed(bm.wake) || !bm.awake.Load() || mString(b) != "B->A->B" {
+		return fmt.Errorf("Membership mirror mismatch after Wake")
+	}
+	return nil
+}
+
+// blocking calls: run in a goroutine; "returned" within the budget, or cancelled and joined
+func callBlocking(expectReturn bool, f func(ctx context.Context) bool) (returned bool, value bool) {
 	ctx, cancel := context.WithCancel(context.Background())
-	cancel()
-	fmt.Println(spWait(sp, ctx))
-	rpDec(r)
-	fmt.Println(spWait(sp, context.Background()))
+	defer cancel()
+	done := make(chan bool, 1)
+	go func() { done <- f(ctx) }()
+	budget := 3 * time.Millisecond
+	if expectReturn {
+		budget = 10 * time.Second
+	}
+	select {
+	case v := <-done:
+		return true, v
+	case <-time.After(budget):
+		cancel()
+		<-done
+		return false, false
+	}
+}
+
+// ---------------------------------------------------------------------------------------------
+// kind 1: StatusPool call sequences
+
+func kindPool(w *rec.Writer, seed uint64) {
+	r := rec.NewRand(seed)
+	sp := newStatusPool()
+	var reps []unsafe.Pointer
+	nops := r.Range(1, 24)
+	waited := false
+	var ops []rec.V
+	for i := 0; i < nops; i++ {
+		canReg := !waited && len(reps) < 5
+		choices := []int{4}
+		if canReg {
+			choices = append(choices, 0, 0)
+		}
+		if len(reps) > 0 {
+			choices = append(choices, 1, 1, 1, 2, 2, 2, 3, 3)
+		}
+		op := rec.Pick(r, choices)
+		arg := 0
+		if len(reps) > 0 {
+			arg = r.Intn(len(reps))
+		}
+		res := 0
+		switch op {
+		case 0: // Register
+			reps = append(reps, spRegister(sp))
+			arg = len(reps) - 1
+			w.Stat("pool_register", 1)
+		case 1:
+			rpInc(reps[arg])
+		case 2:
+			rpDec(reps[arg])
+		case 3:
+			rpReport(reps[arg])
+		default: // Wait
+			waited = true
+			o := readPool(sp)
+			expect := (len(o.bits) == 0 || o.ready) && (o.total <= 0 || o.quiet)
+			var ret, val bool
+			if len(reps) > 0 && r.Bool() {
+				ret, val = callBlocking(expect, func(ctx context.Context) bool { return rpWait(reps[arg], ctx) })
+			} else {
+				ret, val = callBlocking(expect, func(ctx context.Context) bool { return spWait(sp, ctx) })
+			}
+			if ret && val {
+				res = 1
+				w.Stat("pool_wait_returned", 1)
+			} else if ret {
+				res = 2 // returned false without cancellation: never expected
+			} else {
+				w.Stat("pool_wait_blocked", 1)
+			}
+		}
+		ops = append(ops, rec.L(rec.I(op), rec.I(arg), rec.I(res), readPool(sp).rec()))
+	}
+	w.Stat("pool_cases", 1)
+	w.Case(map[string]any{"kind": 1, "seed": seed}, rec.I(1), rec.L(ops...))
+}
+
+// ---------------------------------------------------------------------------------------------
+// kind 2: CycleGroup call sequences
+
+type groupObs struct {
+	pool    poolObs
+	size    int
+	leaders []bool
+	next    []int
+	wake    []bool
+	awake   []bool
+	paths   [][]int
+}
+
+func indexOf(ms []unsafe.Pointer, p unsafe.Pointer) int {
+	for i, m := range ms {
+		if m == p {
+			return i
+		}
+	}
+	return -1
+}
+
+func readGroup(g unsafe.Pointer, ms []unsafe.Pointer, withPaths bool) groupObs {
+	gm := (*groupMirror)(g)
+	o := groupObs{pool: readPool(unsafe.Pointer(gm.statusPool)), size: cgSize(g)}
+	for _, m := range ms {
+		mm := (*memMirror)(m)
+		o.leaders = append(o.leaders, mIsLeader(m))
+		o.next = append(o.next, indexOf(ms, mNext(m)))
+		o.wake = append(o.wake, closed(mm.wake))
+		o.awake = append(o.awake, mm.awake.Load())
+		if withPaths {
+			var path []int
+			for _, lab := range strings.Split(mString(m), "->") {
+				var k int
+				fmt.Sscanf(lab, "m%d", &k)
+				path = append(path, k)
+			}
+			o.paths = append(o.paths, path)
+		}
+	}
+	return o
+}
+
+func (o groupObs) rec() rec.V {
+	ps := make([]rec.V, len(o.paths))
+	for i, p := range o.paths {
+		ps[i] = rec.LI(p)
+	}
+	return rec.L(o.pool.rec(), rec.I(o.size), lb(o.leaders), rec.LI(o.next), lb(o.wake), lb(o.awake), rec.L(ps...))
+}
+
+func kindGroup(w *rec.Writer, seed uint64) {
+	r := rec.NewRand(seed)
+	g := newCycleGroup()
+	var ms []unsafe.Pointer
+	nops := r.Range(1, 30)
+	var ops []rec.V
+	for i := 0; i < nops; i++ {
+		op := r.Intn(12)
+		if len(ms) == 0 || (len(ms) < 6 && (i < 3 && r.Chance(2, 3) || op == 0)) {
+			op = 0
+		} else if op == 0 {
+			op = 2
+		}
+		arg := 0
+		if len(ms) > 0 {
+			arg = r.Intn(len(ms))
+		}
+		res := 0
+		switch op {
+		case 0:
+			ms = append(ms, cgJoin(g, fmt.Sprintf("m%d", len(ms))))
+			arg = len(ms) - 1
+			w.Stat("group_join", 1)
+		case 1, 2:
+			op = 1
+			mSignalReady(ms[arg])
+		case 3, 4:
+			op = 2
+			mInc(ms[arg])
+		case 5, 6:
+			op = 3
+			mDec(ms[arg])
+		case 7:
+			op = 4
+			mWake(ms[arg])
+		case 8, 9:
+			op = 5
+			mm := (*memMirror)(ms[arg])
+			expect := closed(mm.wake)
+			ret, _ := callBlocking(expect, func(ctx context.Context) bool { mSleep(ms[arg], ctx); return ctx.Err() == nil })
+			if ret {
+				res = 1
+			}
+			w.Stat(fmt.Sprintf("group_sleep_%d", res), 1)
+		default:
+			op = 6
+			o := readPool(unsafe.Pointer((*groupMirror)(g).statusPool))
+			expect := (len(o.bits) == 0 || o.ready) && (o.total <= 0 || o.quiet)
+			ret, val := callBlocking(expect, func(ctx context.Context) bool { return mWaitForAllReady(ms[arg], ctx) })
+			if ret && val {
+				res = 1
+			} else if ret {
+				res = 2
+			}
+			w.Stat(fmt.Sprintf("group_wait_%d", res), 1)
+		}
+		ops = append(ops, rec.L(rec.I(op), rec.I(arg), rec.I(res), readGroup(g, ms, true).rec()))
+	}
+	w.Stat("group_cases", 1)
+	w.Case(map[string]any{"kind": 2, "seed": seed}, rec.I(2), rec.L(ops...))
+}
+
+// ---------------------------------------------------------------------------------------------
+// kind 3: the protocol at method granularity
+
+type msgT struct {
+	dst  int
+	kids []*msgT
+}
+
+func genMsg(r *rec.Rand, n, depth int, budget *int) *msgT {
+	m := &msgT{dst: r.Intn(n)}
+	*budget--
+	if depth > 0 {
+		k := r.Intn(3)
+		if r.Chance(1, 4) {
+			k = 0
+		}
+		for i := 0; i < k && *budget > 0; i++ {
+			m.kids = append(m.kids, genMsg(r, n, depth-1, budget))
+		}
+	}
+	return m
+}
+
+func (m *msgT) rec() rec.V {
+	ks := make([]rec.V, len(m.kids))
+	for i, k := range m.kids {
+		ks[i] = k.rec()
+	}
+	return rec.L(rec.I(m.dst), rec.L(ks...))
+}
+
+func msgSize(m *msgT) int {
+	s := 1
+	for _, k := range m.kids {
+		s += msgSize(k)
+	}
+	return s
+}
+
+// action codes
+const (
+	aSignalReady = 1 // TM: SignalReady
+	aWaitAll     = 2 // TM: WaitForAllReady (res 1 returned / 0 blocked)
+	aSleep       = 3 // TM: Sleep (res 1 returned / 0 blocked)
+	aClose       = 4 // TM: listener.Close() of the next listener
+	aWake        = 5 // TM: Next().Wake() (res = index of Next())
+	aWaitRec     = 6 // TM: wgRecursive.Wait() returns
+	aRecv        = 7 // TP: Recv (res 1 message / 2 drained (cancelled) / 0 closed -> return)
+	aSend        = 8 // TP: MsgFunc + Send of the next child (res 1 enqueued / 0 failed -> Done)
+	aFin         = 9 // TP: msg.Done() of the received message
+	aCancel      = 10
+)
+
+type procT struct {
+	owner, src int // src -1: standard sender
+	kids       []*msgT
+	holding    bool
+	ended      bool
+}
+
+func kindProto(w *rec.Writer, seed uint64) {
+	r := rec.NewRand(seed)
+	n := r.Range(1, 4)
+	if r.Chance(1, 10) {
+		n = 5
+	}
+	np := r.Range(1, 2)
+	g := newCycleGroup()
+	ms := make([]unsafe.Pointer, n)
+	for i := range ms {
+		ms[i] = cgJoin(g, fmt.Sprintf("m%d", i))
+	}
+	// workload
+	var stdRec []rec.V
+	var procs []*procT
+	for a := 0; a < n; a++ {
+		for b := 0; b < n; b++ {
+			for j := 0; j < np; j++ {
+				procs = append(procs, &procT{owner: b, src: a})
+			}
+		}
+	}
+	nstd := r.Intn(2*n + 1)
+	total := 0
+	for i := 0; i < nstd; i++ {
+		owner := r.Intn(n)
+		var kids []*msgT
+		budget := r.Range(1, 10)
+		for k := r.Intn(4); k > 0 && budget > 0; k-- {
+			kids = append(kids, genMsg(r, n, r.Intn(4), &budget))
+		}
+		ks := make([]rec.V, len(kids))
+		for j, k := range kids {
+			ks[j] = k.rec()
+			total += msgSize(k)
+		}
+		stdRec = append(stdRec, rec.L(rec.I(owner), rec.L(ks...)))
+		procs = append(procs, &procT{owner: owner, src: -1, kids: kids, ended: len(kids) == 0})
+	}
+	withCancel := r.Chance(1, 5)
+	bias := r.Intn(4) // scheduling bias
+	mpc := make([]int, n) // 0 before SignalReady, 1 WaitAll, 2 Sleep, 3 Cleanup, 4 Wake, 5 WaitRec, 6 done
+	closedPos := make([]int, n)
+	queues := map[[2]int][]*msgT{}
+	cancelled := false
+	probes := 0
+	dropped := 0
+	var tlog []rec.V
+	var acts []rec.V
+
+	type action struct{ kind, tid, idx int } // tid 0 = TM, 1 = TP, 2 = TC
+	for step := 0; step < 4000; step++ {
+		gm := (*groupMirror)(g)
+		po := readPool(unsafe.Pointer(gm.statusPool))
+		var en []action
+		var blocked []action
+		for i := 0; i < n; i++ {
+			switch mpc[i] {
+			case 0:
+				ok := true
+				for _, p := range procs {
+					if p.src < 0 && p.owner == i && !p.ended {
+						ok = false
+					}
+				}
+				if ok {
+					en = append(en, action{aSignalReady, 0, i})
+				}
+			case 1:
+				if po.ready && (po.total <= 0 || po.quiet) {
+					en = append(en, action{aWaitAll, 0, i})
+				} else {
+					blocked = append(blocked, action{aWaitAll, 0, i})
+				}
+			case 2:
+				if closed((*memMirror)(ms[i]).wake) {
+					en = append(en, action{aSleep, 0, i})
+				} else {
+					blocked = append(blocked, action{aSleep, 0, i})
+				}
+			case 3:
+				en = append(en, action{aClose, 0, i})
+			case 4:
+				en = append(en, action{aWake, 0, i})
+			case 5:
+				ok := true
+				for _, p := range procs {
+					if p.src >= 0 && p.owner == i && !p.ended {
+						ok = false
+					}
+				}
+				if ok {
+					en = append(en, action{aWaitRec, 0, i})
+				}
+			}
+		}
+		for k, p := range procs {
+			if p.ended {
+				continue
+			}
+			switch {
+			case len(p.kids) > 0:
+				en = append(en, action{aSend, 1, k})
+			case p.holding:
+				en = append(en, action{aFin, 1, k})
+			case p.src >= 0:
+				if len(queues[[2]int{p.src, p.owner}]) > 0 || p.owner < closedPos[p.src] {
+					en = append(en, action{aRecv, 1, k})
+				}
+			}
+		}
+		if withCancel && !cancelled && r.Chance(1, 25) {
+			en = append(en, action{aCancel, 2, 0})
+		}
+		if len(en) == 0 {
+			break
+		}
+		var a action
+		probe := false
+		if len(blocked) > 0 && probes < 4 && r.Chance(1, 12) {
+			a = rec.Pick(r, blocked)
+			probe = true
+			probes++
+		} else {
+			a = rec.Pick(r, en)
+			// bias: prefer members (1), prefer processors (2), prefer the lowest thread (3)
+			for tries := 0; tries < 3; tries++ {
+				if bias == 1 && a.tid != 0 || bias == 2 && a.tid != 1 {
+					a = rec.Pick(r, en)
+				}
+			}
+			if bias == 3 && r.Chance(2, 3) {
+				a = en[0]
+			}
+		}
+		res := 0
+		switch a.kind {
+		case aSignalReady:
+			mSignalReady(ms[a.idx])
+			mpc[a.idx] = 1
+		case aWaitAll:
+			ret, val := callBlocking(!probe, func(ctx context.Context) bool { return mWaitForAllReady(ms[a.idx], ctx) })
+			if ret && val {
+				res = 1
+				if mIsLeader(ms[a.idx]) {
+					mpc[a.idx] = 3
+				} else {
+					mpc[a.idx] = 2
+				}
+			} else if ret {
+				res = 2
+			}
+		case aSleep:
+			ret, _ := callBlocking(!probe, func(ctx context.Context) bool { mSleep(ms[a.idx], ctx); return true })
+			if ret {
+				res = 1
+				mpc[a.idx] = 3
+			}
+		case aClose:
+			tlog = append(tlog, rec.L(rec.I(0), rec.I(a.idx), rec.I(closedPos[a.idx])))
+			closedPos[a.idx]++
+			if closedPos[a.idx] >= n {
+				mpc[a.idx] = 4
+			}
+		case aWake:
+			nx := mNext(ms[a.idx])
+			res = indexOf(ms, nx)
+			was := closed((*memMirror)(nx).wake)
+			mWake(nx)
+			if !was && closed((*memMirror)(nx).wake) {
+				tlog = append(tlog, rec.L(rec.I(1), rec.I(res), rec.I(0)))
+			}
+			mpc[a.idx] = 5
+		case aWaitRec:
+			mpc[a.idx] = 6
+		case aRecv:
+			p := procs[a.idx]
+			key := [2]int{p.src, p.owner}
+			if q := queues[key]; len(q) > 0 {
+				m := q[0]
+				queues[key] = q[1:]
+				p.holding = true
+				if cancelled {
+					res = 2
+					dropped += msgSize(m)
+				} else {
+					res = 1
+					p.kids = m.kids
+				}
+			} else {
+				p.ended = true
+			}
+		case aSend:
+			p := procs[a.idx]
+			m := p.kids[0]
+			p.kids = p.kids[1:]
+			mInc(ms[p.owner])
+			if cancelled || m.dst < closedPos[p.owner] {
+				mDec(ms[p.owner])
+				dropped += msgSize(m)
+			} else {
+				res = 1
+				key := [2]int{p.owner, m.dst}
+				queues[key] = append(queues[key], m)
+			}
+			if len(p.kids) == 0 && p.src < 0 {
+				p.ended = true
+			}
+		case aFin:
+			p := procs[a.idx]
+			mDec(ms[p.owner])
+			p.holding = false
+		case aCancel:
+			cancelled = true
+			w.Stat("proto_cancelled", 1)
+		}
+		// bookkeeping the property predicate is evaluated on
+		pend, held, queued := 0, 0, 0
+		for i := 0; i < n; i++ {
+			if mpc[i] == 0 {
+				pend++
+			}
+		}
+		for _, p := range procs {
+			if p.holding {
+				held++
+			}
+		}
+		for _, q := range queues {
+			queued += len(q)
+		}
+		o := readGroup(g, ms, false)
+		acts = append(acts, rec.L(rec.I(a.kind), rec.I(a.tid), rec.I(a.idx), rec.I(res),
+			o.pool.rec(), lb(o.wake), lb(o.awake), rec.L(rec.I(pend), rec.I(held), rec.I(queued), rec.I(dropped))))
+		if probe {
+			w.Stat("proto_probes", 1)
+		}
+	}
+	fin := 1
+	for i := 0; i < n; i++ {
+		if mpc[i] != 6 {
+			fin = 0
+		}
+	}
+	for _, p := range procs {
+		if !p.ended {
+			fin = 0
+		}
+	}
+	w.Stat("proto_cases", 1)
+	w.Stat(fmt.Sprintf("proto_members_%d", n), 1)
+	w.Stat("proto_actions", len(acts))
+	w.Stat("proto_messages", total)
+	if fin == 1 {
+		w.Stat("proto_torn_down", 1)
+	}
+	w.Case(map[string]any{"kind": 3, "seed": seed},
+		rec.I(3), rec.I(n), rec.I(np), rec.L(stdRec...), rec.L(acts...), rec.L(tlog...), rec.I(fin), rec.I(total))
+}
+
+// ---------------------------------------------------------------------------------------------
+// kind 4: end to end
+
+// a datastore wrapper that perturbs the goroutine schedule around reads
+type yieldDS struct {
+	storage.OpenFGADatastore
+	ctr atomic.Uint64
+	on  atomic.Bool
+}
+
+func (y *yieldDS) perturb() {
+	if !y.on.Load() {
+		return
+	}
+	c := y.ctr.Add(1)
+	z := (c + 0x9e3779b97f4a7c15) * 0xbf58476d1ce4e5b9
+	z ^= z >> 29
+	switch z % 7 {
+	case 0, 1:
+		runtime.Gosched()
+	case 2:
+		time.Sleep(time.Duration(z>>8%200) * time.Microsecond)
+	case 3:
+		for i := 0; i < int(z>>8%4); i++ {
+			runtime.Gosched()
+		}
+	}
+}
+
+func (y *yieldDS) ReadStartingWithUser(ctx context.Context, store string, f storage.ReadStartingWithUserFilter, o storage.ReadStartingWithUserOptions) (storage.TupleIterator, error) {
+	y.perturb()
+	it, err := y.OpenFGADatastore.ReadStartingWithUser(ctx, store, f, o)
+	y.perturb()
+	return it, err
+}
+
+func (y *yieldDS) Read(ctx context.Context, store string, f storage.ReadFilter, o storage.ReadOptions) (storage.TupleIterator, error) {
+	y.perturb()
+	return y.OpenFGADatastore.Read(ctx, store, f, o)
+}
+
+type cfgT struct{ Chunk, Buf, Procs int }
+
+type e2eEnv struct {
+	ds      *yieldDS
+	servers map[cfgT]*server.Server
+	ref     *server.Server
+}
+
+func newEnv() *e2eEnv {
+	y := &yieldDS{OpenFGADatastore: memory.New()}
+	e := &e2eEnv{ds: y, servers: map[cfgT]*server.Server{}}
+	e.ref = server.MustNewServerWithOpts(server.WithDatastore(y))
+	return e
+}
+
+func (e *e2eEnv) srv(c cfgT) *server.Server {
+	if s, ok := e.servers[c]; ok {
+		return s
+	}
+	s := server.MustNewServerWithOpts(
+		server.WithDatastore(e.ds),
+		server.WithExperimentals("pipeline_list_objects"),
+		server.WithListObjectsPipelineEnabled(true),
+		server.WithListObjectsChunkSize(c.Chunk),
+		server.WithListObjectsBufferCapacity(c.Buf),
+		server.WithListObjectsNumProcs(c.Procs),
+		server.WithListObjectsDeadline(40*time.Second),
+		server.WithListObjectsMaxResults(0),
+	)
+	e.servers[c] = s
+	return s
+}
+
+type e2eCase struct {
+	Kind   int        `json:"kind"`
+	Seed   uint64     `json:"seed"`
+	DSL    string     `json:"dsl"`
+	Tuples [][3]string `json:"tuples"`
+	User   string     `json:"user"`
+	Type   string     `json:"type"`
+	Rel    string     `json:"rel"`
+	Cfgs   []cfgT     `json:"cfgs"`
+	Conc   int        `json:"conc"`
+	Procs  int        `json:"gomaxprocs"`
+	NT     *bool      `json:"nt,omitempty"`
+}
+
+// genModel builds a cyclic authorization model and the universe of objects
+func genModel(r *rec.Rand) (dsl string, types []string, shape string) {
+	k := r.Range(1, 3)
+	types = make([]string, k)
+	for i := range types {
+		types[i] = fmt.Sprintf("g%d", i)
+	}
+	var sb strings.Builder
+	sb.WriteString("model\n  schema 1.1\ntype user\n")
+	var shapes []string
+	for i, t := range types {
+		// direct usersets creating same-type recursion and tuple cycles
+		direct := []string{"user"}
+		for j, u := range types {
+			p := 2
+			if j == (i+1)%k {
+				p = 5 // favour the ring g0 -> g1 -> ... -> g0
+			}
+			if r.Chance(p, 6) {
+				if r.Chance(1, 5) {
+					direct = append(direct, u+"#admin")
+				} else {
+					direct = append(direct, u+"#member")
+				}
+			}
+		}
+		var parents []string
+		for _, u := range types {
+			if r.Chance(1, 3) {
+				parents = append(parents, u)
+			}
+		}
+		adminDef := "[user]"
+		switch r.Intn(4) {
+		case 0:
+			adminDef = "member"
+		case 1:
+			adminDef = "[user, " + types[r.Intn(k)] + "#member]"
+		}
+		memberDef := "[" + strings.Join(direct, ", ") + "]"
+		if r.Chance(1, 3) {
+			memberDef += " or owner"
+		}
+		if len(parents) > 0 && r.Chance(2, 3) {
+			memberDef += " or member from parent"
+			shapes = append(shapes, "ttu")
+		}
+		if len(direct) > 1 {
+			shapes = append(shapes, "userset")
+		}
+		sb.WriteString("type " + t + "\n  relations\n")
+		if len(parents) == 0 {
+			parents = []string{t}
+		}
+		sb.WriteString("    define parent: [" + strings.Join(parents, ", ") + "]\n")
+		sb.WriteString("    define owner: [user]\n")
+		sb.WriteString("    define admin: " + adminDef + "\n")
+		sb.WriteString("    define member: " + memberDef + "\n")
+	}
+	// the document type on top of the cycles
+	var via []string
+	for _, t := range types {
+		if r.Chance(1, 2) {
+			via = append(via, t+"#member")
+		}
+	}
+	if len(via) == 0 {
+		via = []string{types[0] + "#member"}
+	}
+	sb.WriteString("type doc\n  relations\n")
+	sb.WriteString("    define parent: [" + strings.Join(types, ", ") + "]\n")
+	sb.WriteString("    define via: [" + strings.Join(via, ", ") + "]\n")
+	sb.WriteString("    define allowed: [user]\n")
+	sb.WriteString("    define blocked: [user]\n")
+	top := r.Intn(6)
+	switch top {
+	case 0:
+		sb.WriteString("    define viewer: via\n")
+		shapes = append(shapes, "top_computed")
+	case 1:
+		sb.WriteString("    define viewer: member from parent\n")
+		shapes = append(shapes, "top_ttu")
+	case 2:
+		sb.WriteString("    define viewer: via and allowed\n")
+		shapes = append(shapes, "top_intersection")
+	case 3:
+		sb.WriteString("    define viewer: via but not blocked\n")
+		shapes = append(shapes, "top_exclusion")
+	case 4:
+		sb.WriteString("    define viewer: [user] or via or member from parent\n")
+		shapes = append(shapes, "top_union")
+	default:
+		sb.WriteString("    define viewer: (via and allowed) or (member from parent but not blocked)\n")
+		shapes = append(shapes, "top_mixed")
+	}
+	sort.Strings(shapes)
+	return sb.String(), types, strings.Join(shapes, "+")
+}
+
+func genTuples(r *rec.Rand, model *openfgav1.AuthorizationModel, types []string, m int) [][3]string {
+	var out [][3]string
+	seen := map[[3]string]bool{}
+	users := []string{"user:u1", "user:u2", "user:u3"}
+	density := r.Range(1, 4)
+	for _, td := range model.GetTypeDefinitions() {
+		for rel, meta := range td.GetMetadata().GetRelations() {
+			for _, ref := range meta.GetDirectlyRelatedUserTypes() {
+				for id := 1; id <= m; id++ {
+					for tries := 0; tries < density; tries++ {
+						if !r.Chance(1, 2) {
+							continue
+						}
+						obj := fmt.Sprintf("%s:%d", td.GetType(), id)
+						var u string
+						switch {
+						case ref.GetRelation() != "":
+							u = fmt.Sprintf("%s:%d#%s", ref.GetType(), r.Range(1, m), ref.GetRelation())
+						case ref.GetType() == "user":
+							u = rec.Pick(r, users)
+						default:
+							u = fmt.Sprintf("%s:%d", ref.GetType(), r.Range(1, m))
+						}
+						t := [3]string{obj, rel, u}
+						if !seen[t] && obj+"#"+rel != u {
+							seen[t] = true
+							out = append(out, t)
+						}
+					}
+				}
+			}
+		}
+	}
+	sort.Slice(out, func(i, j int) bool { return fmt.Sprint(out[i]) < fmt.Sprint(out[j]) })
+	return out
+}
+
+var cfgPool = []cfgT{{1, 1, 1}, {1, 2, 3}, {2, 1, 2}, {3, 8, 1}, {100, 128, 3}, {1, 128, 8}, {2, 2, 2}, {100, 1, 1}}
+
+func runE2E(w *rec.Writer, env *e2eEnv, c e2eCase, storeCounter *int) {
+	ctx := context.Background()
+	model, err := parser.TransformDSLToProto(c.DSL)
+	if err != nil {
+		w.Stat("e2e_dsl_error", 1)
+		return
+	}
+	*storeCounter++
+	st, err := env.ref.CreateStore(ctx, &openfgav1.CreateStoreRequest{Name: fmt.Sprintf("c21-%d", *storeCounter)})
+	if err != nil {
+		w.Stat("e2e_store_error", 1)
+		return
+	}
+	storeID := st.GetId()
+	wm, err := env.ref.WriteAuthorizationModel(ctx, &openfgav1.WriteAuthorizationModelRequest{
+		StoreId: storeID, SchemaVersion: model.GetSchemaVersion(), TypeDefinitions: model.GetTypeDefinitions(), Conditions: model.GetConditions()})
+	if err != nil {
+		w.Stat("e2e_model_invalid", 1)
+		return
+	}
+	modelID := wm.GetAuthorizationModelId()
+	model.Id = modelID
+	pipeline := false
+	if ts, err := typesystem.NewAndValidate(ctx, model); err == nil && ts.GetWeightedGraph() != nil {
+		pipeline = true
+	}
+	if c.Tuples == nil {
+		return
+	}
+	for i := 0; i < len(c.Tuples); i += 40 {
+		j := min(i+40, len(c.Tuples))
+		var tks []*openfgav1.TupleKey
+		for _, t := range c.Tuples[i:j] {
+			tks = append(tks, &openfgav1.TupleKey{Object: t[0], Relation: t[1], User: t[2]})
+		}
+		if _, err := env.ref.Write(ctx, &openfgav1.WriteRequest{StoreId: storeID, AuthorizationModelId: modelID,
+			Writes: &openfgav1.WriteRequestWrites{TupleKeys: tks}}); err != nil {
+			w.Stat("e2e_write_error", 1)
+			return
+		}
+	}
+	// reference: the objects the real Check allows
+	env.ds.on.Store(false)
+	var expected []string
+	ids := map[string]bool{}
+	for _, t := range c.Tuples {
+		if strings.HasPrefix(t[0], c.Type+":") {
+			ids[t[0]] = true
+		}
+	}
+	for id := 1; id <= 6; id++ {
+		ids[fmt.Sprintf("%s:%d", c.Type, id)] = true
+	}
+	var objs []string
+	for o := range ids {
+		objs = append(objs, o)
+	}
+	sort.Strings(objs)
+	for _, o := range objs {
+		resp, err := env.ref.Check(ctx, &openfgav1.CheckRequest{StoreId: storeID, AuthorizationModelId: modelID,
+			TupleKey: &openfgav1.CheckRequestTupleKey{Object: o, Relation: c.Rel, User: c.User}})
+		if err != nil {
+			w.Stat("e2e_check_error_skipped", 1)
+			return
+		}
+		if resp.GetAllowed() {
+			expected = append(expected, o)
+		}
+	}
+	env.ds.on.Store(true)
+	defer env.ds.on.Store(false)
+	old := runtime.GOMAXPROCS(c.Procs)
+	defer runtime.GOMAXPROCS(old)
+	type outT struct {
+		objs []string
+		code int // 0 ok, 1 error, 2 hang
+	}
+	var runs []rec.V
+	for _, cfg := range c.Cfgs {
+		srv := env.srv(cfg)
+		outs := make([]outT, c.Conc)
+		var wg sync.WaitGroup
+		for q := 0; q < c.Conc; q++ {
+			wg.Add(1)
+			go func(q int) {
+				defer wg.Done()
+				done := make(chan outT, 1)
+				go func() {
+					resp, err := srv.ListObjects(ctx, &openfgav1.ListObjectsRequest{StoreId: storeID, AuthorizationModelId: modelID,
+						Type: c.Type, Relation: c.Rel, User: c.User})
+					if err != nil {
+						done <- outT{code: 1}
+						return
+					}
+					done <- outT{objs: append([]string(nil), resp.GetObjects()...)}
+				}()
+				select {
+				case o := <-done:
+					outs[q] = o
+				case <-time.After(60 * time.Second):
+					outs[q] = outT{code: 2}
+				}
+			}(q)
+		}
+		wg.Wait()
+		for _, o := range outs {
+			sort.Strings(o.objs)
+			runs = append(runs, rec.L(rec.I(cfg.Chunk), rec.I(cfg.Buf), rec.I(cfg.Procs), rec.I(o.code), rec.LS(o.objs)))
+			switch o.code {
+			case 1:
+				w.Stat("e2e_list_error", 1)
+			case 2:
+				w.Stat("e2e_hang", 1)
+			}
+		}
+		w.Stat("e2e_requests", c.Conc)
+	}
+	w.Stat("e2e_cases", 1)
+	if pipeline {
+		w.Stat("e2e_pipeline_used", 1)
+	} else {
+		w.Stat("e2e_no_weighted_graph", 1)
+		f := false
+		c.NT = &f
+	}
+	if len(expected) > 0 {
+		w.Stat("e2e_nonempty_expected", 1)
+	}
+	w.Stat("e2e_expected_objects", len(expected))
+	w.Case(c, rec.I(4), rec.Bool(pipeline), rec.LS(expected), rec.L(runs...))
+}
+
+func kindE2E(w *rec.Writer, env *e2eEnv, seed uint64, storeCounter *int, thorough bool) {
+	r := rec.NewRand(seed)
+	dsl, types, shape := genModel(r)
+	model, err := parser.TransformDSLToProto(dsl)
+	if err != nil {
+		w.Stat("e2e_dsl_error", 1)
+		return
+	}
+	// validity and weighted graph first: do not spend tuples on rejected models
+	if _, err := typesystem.NewAndValidate(context.Background(), model); err != nil {
+		w.Stat("e2e_model_invalid", 1)
+		return
+	}
+	w.Stat("e2e_shape_"+shape, 1)
+	m := r.Range(2, 5)
+	tuples := genTuples(r, model, types, m)
+	ntargets := 2
+	if thorough {
+		ntargets = 3
+	}
+	for t := 0; t < ntargets; t++ {
+		c := e2eCase{Kind: 4, Seed: seed, DSL: dsl, Tuples: tuples, User: rec.Pick(r, []string{"user:u1", "user:u2", "user:u3"})}
+		if t == 0 || r.Chance(1, 2) {
+			c.Type, c.Rel = "doc", "viewer"
+		} else {
+			c.Type, c.Rel = rec.Pick(r, types), rec.Pick(r, []string{"member", "member", "admin"})
+		}
+		ncfg := 2
+		for i := 0; i < ncfg; i++ {
+			c.Cfgs = append(c.Cfgs, rec.Pick(r, cfgPool))
+		}
+		c.Conc = r.Range(3, 8)
+		c.Procs = rec.Pick(r, []int{1, 2, 4, 8, 16})
+		runE2E(w, env, c, storeCounter)
+	}
+}
+
+// ---------------------------------------------------------------------------------------------
+
+func main() {
+	o := rec.ParseFlags()
+	w := rec.NewWriter(o.Out)
+	defer w.Close()
+	if err := selfTest(); err != nil {
+		fmt.Fprintln(os.Stderr, "c21: layout self test failed:", err)
+		w.Close()
+		os.Exit(3)
+	}
+	env := newEnv()
+	stores := 0
+	thorough := o.Tier == "thorough"
+	if o.Replay != "" {
+		data, err := os.ReadFile(o.Replay)
+		if err != nil {
+			panic(err)
+		}
+		for _, line := range strings.Split(string(data), "\n") {
+			line = strings.TrimSpace(line)
+			if line == "" || line == "null" {
+				continue
+			}
+			var c e2eCase
+			if err := json.Unmarshal([]byte(line), &c); err != nil {
+				continue
+			}
+			switch c.Kind {
+			case 1:
+				kindPool(w, c.Seed)
+			case 2:
+				kindGroup(w, c.Seed)
+			case 3:
+				kindProto(w, c.Seed)
+			case 4:
+				c.NT = nil
+				for rep := 0; rep < 5; rep++ {
+					runE2E(w, env, c, &stores)
+				}
+			}
+		}
+		return
+	}
+	r := rec.NewRand(o.Seed)
+	for i := 0; i < o.N; i++ {
+		kindPool(w, r.Uint64())
+		kindGroup(w, r.Uint64())
+		kindProto(w, r.Uint64())
+		kindProto(w, r.Uint64())
+	}
+	ne2e := o.N / 6
+	for i := 0; i < ne2e; i++ {
+		kindE2E(w, env, r.Uint64(), &stores, thorough)
+	}
 }
